@@ -492,3 +492,55 @@ def rule_inert_members(ctx, rule='R05.9'):
                             break
                 samples.append(where)
     ctx.covered(rule, 'conditions on members classified inert (%s) guard nothing but messages and inert writes' % ', '.join(sorted(inert)), n, floor=2, samples=samples[:6])
+
+
+def rule_scratch_reset(ctx, rule='R05.10'):
+    """R05.10: buffers classified `scratch` above are not persisted on the ground that every evaluation rewrites them before
+    reading them. For the compensated-summation buffer that is a claim about gravity.c: in every function that reads
+    elements of r->gravity_cs (directly or through a local alias), each member read is first assigned a constant for the
+    same element range, earlier in the same function. Otherwise the result of a force evaluation depends on the previous
+    one (and a restored simulation, whose buffer starts empty, differs in the last bits)."""
+    tu = cfront.load_tu('gravity.c')
+    n = 0
+    for fname in sorted(tu.funcs):
+        fn = tu.func(fname)
+        body = cfront.body(fn)
+        if body is None:
+            continue
+        aliases = set()
+        for d in walk(body):
+            if d.get('kind') == 'VarDecl' and 'init' in d:
+                init = [c for c in d.get('inner', []) if c.get('kind') not in ('FullComment',)]
+                if init and render(init[-1]).replace(' ', '').strip('()') == 'r.gravity_cs':
+                    aliases.add(d['name'])
+        if not aliases and 'gravity_cs' not in ' '.join(render(x) for x in walk(body) if x.get('kind') == 'MemberExpr' and x.get('name') == 'gravity_cs'):
+            continue
+
+        def elem_member(e):
+            e = strip(e, casts=True)
+            if e.get('kind') == 'MemberExpr':
+                b = strip(e['inner'][0], casts=True)
+                if b.get('kind') == 'ArraySubscriptExpr':
+                    base = render(strip(b['inner'][0], casts=True)).replace(' ', '').strip('()')
+                    if base in aliases or base == 'r.gravity_cs':
+                        return e['name']
+            return None
+        resets = {}      # member -> first line of `X[..].member = constant`
+        reads = {}       # member -> first line read
+        for e in walk(body):
+            if is_assign(e) and e['opcode'] == '=':
+                m = elem_member(e['inner'][0])
+                if m and strip(e['inner'][1], casts=True).get('kind') in ('FloatingLiteral', 'IntegerLiteral'):
+                    resets.setdefault(m, line_of(e))
+        lhs_ids = {id(strip(e['inner'][0], casts=True)) for e in walk(body) if is_assign(e) and e['opcode'] == '='}
+        for e in walk(body):
+            if e.get('kind') == 'MemberExpr' and id(e) not in lhs_ids:
+                m = elem_member(e)
+                if m:
+                    reads.setdefault(m, line_of(e))
+        for m, ln in sorted(reads.items()):
+            n += 1
+            if m not in resets or resets[m] > ln:
+                ctx.report(rule, '%s:gravity_cs:%s' % (fname, m), 'src/gravity.c:%s %s' % (ln, fname),
+                           'the compensation term .%s of r->gravity_cs is read here, but no assignment of a constant to it precedes the read in this function: the buffer is classified as scratch (not persisted) because every force evaluation starts from zero' % m)
+    ctx.covered(rule, 'compensated-summation scratch buffer: every member read is reset earlier in the same function', n, floor=3)
